@@ -1,5 +1,6 @@
 """C10 - every CAIT match is a genuine embedding of the pattern in the student's code (structural guards)."""
 import ast
+import itertools
 import re
 
 from ..astutil import dotted, calls, call_name, body_walk, walk_local, is_self_attr, kw
@@ -55,13 +56,64 @@ def r1_kind_equality(ctx, sym, mod):
         ctx.check(bool(maps) and guarded, 'R1', name + ':guarded', mod, f,
                   "%s builds a mapping without first testing kind / field / meta" % name,
                   "this handler pairs the pattern node with any student node")
+    # shallow_match_xDef executed abstractly: a definition pattern matches a student definition only if the generic
+    # shallow match holds AND the name is equal, a _var_ placeholder (which is then bound) or the ___ wildcard
     xd = mod.func(CLS + 'shallow_match_xDef')
     ctx.analysed_function(mod, xd)
-    ok = any(isinstance(n, ast.If) and norm(n.test) == 'is_match and mapping' for n in body_walk(xd)) and \
-        any(isinstance(n, ast.Compare) and norm(n) == 'name == std.name' for n in ast.walk(xd))
-    ctx.check(ok, 'R1', 'shallow_match_xDef:name-or-binding', mod, xd,
-              "a definition matches without its name being equal, bound as _var_ or a wildcard",
-              "pattern `def foo(): pass` matches `def bar(): pass`")
+    from ..fdeval import module_resolver
+
+    def run_xdef(ins_name, std_name, is_match, has_mapping, meta):
+        bound = []
+        mapping = Obj('AstMap')
+        for t in ('add_func_to_sym_table', 'add_class_to_sym_table', 'add_var_to_sym_table'):
+            mapping.attrs['method:' + t] = (lambda nm: (lambda i, s_: bound.append(nm)))(t)
+        me = Obj('matcher')
+        me.attrs['__classdef__'] = mod.cls('StretchyTreeMatcher')
+        ins = Obj('ins', astNode=Obj('ast.FunctionDef', name=ins_name, __open__=True), ast_name='FunctionDef',
+                  __open__=True)
+        std = Obj('std', astNode=Obj('ast.FunctionDef', name=std_name, __open__=True), ast_name='FunctionDef',
+                  __open__=True)
+        fd = FD(max_steps=100000, resolver=module_resolver(sym, mod))
+
+        def re_compile(pattern, flags=0):
+            rx = re.compile(pattern, flags)
+            o = Obj('pattern %r' % pattern)
+            o.attrs['method:match'] = lambda text: (Obj('match') if rx.match(text) else None)
+            return o
+        fd.calls['re.compile'] = re_compile
+        fd.calls['len'] = len
+
+        def b_getattr(o, nm, *d):
+            if isinstance(o, Obj) and ('method:' + nm) in o.attrs:
+                f = o.attrs['method:' + nm]
+                g = lambda *a, **k: f(*a, **k)
+                g._fd_callable = True
+                return g
+            if d:
+                return d[0]
+            raise Raised('AttributeError', nm)
+        fd.calls['getattr'] = b_getattr
+        maps = [mapping] if has_mapping else []
+        try:
+            got = fd.call_function(xd, [is_match, maps, ins, std, meta, 'add_func_to_sym_table'], bound_self=me)
+        except Raised as e:
+            return 'raises %s' % e.kind, bound
+        except Inconclusive as e:
+            raise AnalysisError("C10 R1: shallow_match_xDef outside the decidable fragment: %s" % e)
+        return (bool(got) if isinstance(got, list) else got), bound
+    for ins_name, std_name in (('foo', 'foo'), ('foo', 'bar'), ('_f_', 'bar'), ('___', 'bar'), ('__f__', 'bar')):
+        for is_match, has_mapping, meta in itertools.product((True, False), repeat=3):
+            name_ok = ins_name == std_name or ins_name in ('_f_', '___')
+            want = bool(is_match and has_mapping and meta and name_ok)
+            want_bound = want and ins_name == '_f_'
+            got, bound = run_xdef(ins_name, std_name, is_match, has_mapping, meta)
+            ctx.check(got is want and bool(bound) == want_bound, 'R1',
+                      'shallow_match_xDef[%s vs %s,match=%s,mapping=%s,meta=%s]' % (
+                          ins_name, std_name, is_match, has_mapping, meta), mod, xd,
+                      "pattern `def %s` against `def %s` (generic match %s, %s mapping, meta %s): result %s, symbol "
+                      "bound %s; expected %s / %s" % (ins_name, std_name, is_match, 'a' if has_mapping else 'no', meta,
+                                                      got, bool(bound), want, want_bound),
+                      "pattern `def foo(): pass` matches `def bar(): pass`")
     # handler names
     explicit = {c.func.attr for c in ast.walk(mod.tree) if isinstance(c, ast.Call) and isinstance(c.func, ast.Attribute)}
     explicit |= {n.attr for n in ast.walk(mod.tree) if isinstance(n, ast.Attribute)}
